@@ -400,6 +400,67 @@ junk = st.one_of(
 )
 
 
+def two_gateways(cls_name, version, stats=None):
+    """Options of a gateway must keep taking effect when a second gateway of the same class exists."""
+    import mysensors.mysensors as api
+
+    case = {"kind": "pair", "cls": cls_name, "version": version}
+    cls = getattr(api, cls_name)
+    with persist.TimerPatch() as fake:
+        fake.Thread = _NoThread
+        if "MQTT" in cls_name:
+            logs = {"a": ([], []), "b": ([], [])}
+
+            def make(tag, prefix):
+                pubs, subs = logs[tag]
+                return cls(lambda *a: pubs.append(a), lambda *a: subs.append(a), in_prefix=prefix + "/in", out_prefix=prefix + "/out", protocol_version=version)
+
+            gw_a = make("a", "site-a")
+            gw_b = make("b", "site-b")
+            for gw in (gw_a, gw_b):
+                gw.tasks.add_job(gw.logic, "7;255;0;0;17;2.0")
+                pump_all(gw, [])
+            gw_a.tasks.add_job(gw_a.logic, "7;1;0;0;3;light")
+            pump_all(gw_a, [])
+            subs_a = [t for t, *_ in logs["a"][1]]
+            subs_b = [t for t, *_ in logs["b"][1]]
+            if not any(t.startswith("site-a/in/7/1/1") for t in subs_a) or any("/7/1/" in t for t in subs_b):
+                raise Violation("option_ignored.second_gateway", case, f"{cls_name} {version}: a child presented to gateway A (in_prefix site-a/in) was subscribed as A={subs_a} B={subs_b}")
+        elif "TCP" in cls_name:
+            import mysensors.gateway_tcp as gt
+
+            class Clock:
+                now = 100.0
+
+                @classmethod
+                def time(cls_):
+                    return cls_.now
+
+            saved = gt.time
+            gt.time = Clock
+            try:
+                gw_a = cls("10.0.0.1", reconnect_timeout=5.0, protocol_version=version)
+                gw_b = cls("10.0.0.2", reconnect_timeout=5.0, protocol_version=version)
+                Clock.now = 108.0
+                # A's device answers the version probe: A's silence timer restarts, B's does not
+                reply = gw_a.logic("0;255;3;0;2;2.3.2")
+                del reply
+                if gw_a.tcp_disconnect_timer != 108.0 or gw_b.tcp_disconnect_timer == 108.0:
+                    raise Violation("option_ignored.second_gateway", case, f"{cls_name} {version}: a version answer received by gateway A updated timers A={gw_a.tcp_disconnect_timer} B={gw_b.tcp_disconnect_timer}")
+            finally:
+                gt.time = saved
+        else:
+            fired = {"a": [], "b": []}
+            gw_a = cls("/dev/ttyA", event_callback=fired["a"].append, protocol_version=version)
+            gw_b = cls("/dev/ttyB", event_callback=fired["b"].append, protocol_version=version)
+            gw_a.tasks.add_job(gw_a.logic, "7;255;0;0;17;2.0")
+            pump_all(gw_a, [])
+            if len(fired["a"]) != 1 or fired["b"] or 7 in gw_b.sensors:
+                raise Violation("option_ignored.second_gateway", case, f"{cls_name} {version}: a presentation received by gateway A fired callbacks A={len(fired['a'])} B={len(fired['b'])}")
+    if stats is not None:
+        stats.case(f"pair:{cls_name}:{version}", case if version == "2.2" else None, labels=("two-gateways", cls_name))
+
+
 def _options_worker(args):
     cls_name, seed_value = args
     common.setup_path()
@@ -446,6 +507,8 @@ def bucket(stats):
 
 
 def check_case(case, stats=None):
+    if case["kind"] == "pair":
+        return two_gateways(case["cls"], case["version"], stats)
     if case["kind"] == "version":
         check_version_string(case["arg"], stats, "replay")
     else:
@@ -466,6 +529,12 @@ def main(tier):
     jobs = [(name, common.seed() * 1000 + i) for i, name in enumerate(OPTIONS)]
     for stats in common.pool_map(_options_worker, jobs):
         run.stats.merge(stats)
+    for cls_name in OPTIONS:
+        for version in ("1.4", "1.5", "2.0", "2.1", "2.2", "2.2.0", "2.3"):
+            try:
+                two_gateways(cls_name, version, run.stats)
+            except Violation as v:
+                run.stats.violation(v.clause, v.case, v.detail)
     grid = version_grid()
     for stats in common.pool_map(_grid_worker, [grid[i::16] for i in range(16)]):
         run.stats.merge(stats)
